@@ -196,6 +196,60 @@ func (fr *frame) enterLoop(lp *loop, edges []inEdge, label string) (string, *Sta
 		ft.assumeAllocated(st, reach, v)
 		fr.assumeTypeRange(v, phi.Type())
 	}
+	// automatic invariants: an integer header phi whose back-edge value is
+	// phi+c (c>0) never drops below its entry value; phi-c never exceeds it
+	for _, ins := range b.Instrs {
+		phi, ok := ins.(*ssa.Phi)
+		if !ok {
+			break
+		}
+		if u.sortOf(phi.Type()) != SInt {
+			continue
+		}
+		ev, ok := entryVals[phi]
+		if !ok || ev.T.S == "" {
+			continue
+		}
+		dir := 0
+		okAll := true
+		for j, p := range b.Preds {
+			if !(lp.body[p] && fr.loops.isBackEdge(p, b)) {
+				continue
+			}
+			bo, isBin := phi.Edges[j].(*ssa.BinOp)
+			if !isBin {
+				okAll = false
+				break
+			}
+			c, isConst := bo.Y.(*ssa.Const)
+			if bo.X != ssa.Value(phi) || !isConst || c.Value == nil {
+				okAll = false
+				break
+			}
+			k := c.Int64()
+			d := 0
+			switch {
+			case bo.Op == token.ADD && k > 0, bo.Op == token.SUB && k < 0:
+				d = 1
+			case bo.Op == token.SUB && k > 0, bo.Op == token.ADD && k < 0:
+				d = -1
+			default:
+				okAll = false
+			}
+			if dir != 0 && d != dir {
+				okAll = false
+			}
+			dir = d
+		}
+		if okAll && dir != 0 {
+			cur := fr.vals[phi].T.S
+			if dir > 0 {
+				ft.assume(reach, sx(">=", cur, ev.T.S))
+			} else {
+				ft.assume(reach, sx("<=", cur, ev.T.S))
+			}
+		}
+	}
 	// assume invariants
 	for _, inv := range invs {
 		fact, err := inv.eval(fr, st, lp)
